@@ -191,3 +191,13 @@ pub proof fn lemma_upd_test(s: UpS, t: MarkdownToken, seg: Seq<Seq<char>>, n: in
         _ => {}
     }
 }
+/// the fence of a written block is not the start of any line of its body: the block is not closed early by its own content
+pub proof fn lemma_block_fence_safe(body: Seq<char>, j: int)
+    requires 0 <= j < str_lines_md(body).len(),
+    ensures !is_prefix_of(ticks(max_ticks(body) + 1), str_lines_md(body)[j]),
+{
+    let ls = str_lines_md(body);
+    lemma_mt_bound(ls, ls.len() as int, j);
+    lemma_fence_safe(ls, j);
+    assert(ticks(max_ticks(body) + 1) =~= Seq::new((mt(ls, ls.len() as int) + 1) as nat, |i: int| '`'));
+}
